@@ -274,6 +274,7 @@ pub fn level_file_new(inmemory: bool) -> (r: (LevelBuf, ZoomWriter))
 pub struct Opts { pub inmemory: bool }
 
 //@extract closure bigtools/src/bbi/bbiwrite.rs write_vals make_zoom
+//@rule R16
 //@header fn make_zoom(size: u32, options: &Opts) -> (u32, ZoomValue)
 //@sub /\(TempFileBuffer<File>, TempFileBufferWriter<File>\)/ => (LevelBuf, ZoomWriter) min=0
 //@sub /TempFileBuffer::new\(/ => level_file_new( min=0
@@ -291,6 +292,7 @@ pub struct Opts { pub inmemory: bool }
 // =====================================================================================
 #[verifier::loop_isolation(false)]
 //@extract fn bigtools/src/bbi/bbiwrite.rs write_chroms_without_zooms
+//@rule R16
 //@rule R1
 //@sub /<W: Write \+ Seek \+ Send \+ 'static>/ => "" min=1
 //@sub /BufWriter<W>/ => OutFile min=2
@@ -359,6 +361,7 @@ pub struct Opts { pub inmemory: bool }
 // loop, each with the code's own pattern spliced in verbatim.
 #[verifier::loop_isolation(false)]
 //@extract fn bigtools/src/bbi/bbiwrite.rs write_chroms_with_zooms
+//@rule R16
 //@rule R1
 //@sub /<W: Write \+ Seek \+ Send \+ 'static>/ => "" min=1
 //@sub /BufWriter<W>/ => OutFile min=2
